@@ -86,6 +86,8 @@ type Env struct {
 	fr    *Frame // for named locals (loop invariants)
 	lets  map[string]CV
 	prev  *State // loop-head state of the current iteration (for prev())
+	neg   bool   // evaluating under an odd number of negations / implication antecedents
+	mixed int    // evaluating under an equivalence (both polarities)
 }
 
 func (e *Env) child() *Env {
@@ -125,7 +127,10 @@ func (e *Env) eval(x Expr) CV {
 	case *EUnary:
 		switch x.Op {
 		case "!":
-			return CV{k: cvBool, t: not(e.eval(x.X).asBool())}
+			e.neg = !e.neg
+			v := e.eval(x.X).asBool()
+			e.neg = !e.neg
+			return CV{k: cvBool, t: not(v)}
 		case "-":
 			return CV{k: cvInt, t: app("-", e.eval(x.X).asInt())}
 		}
@@ -209,9 +214,11 @@ func (e *Env) eval(x Expr) CV {
 			rel.bound[bv] = true
 			rel.vars[x.Var] = CV{k: cvInt, t: bv}
 			relT := fmt.Sprintf("(forall ((%s Int)) %s)", bv, imp(and(le(lo, bv), lt(bv, hi)), rel.eval(x.Body).asBool()))
-			if fx.hypMode {
+			if fx.hypMode && !e.neg && e.mixed == 0 {
 				// assumptions are given in both shapes so that they match
-				// goals and terms in either
+				// goals and terms in either (only where the quantifier is a
+				// fact; in the antecedent of an implication the extra shape
+				// would have to be proved by the user of the assumption)
 				return CV{k: cvBool, t: and(abs, relT)}
 			}
 			return CV{k: cvBool, t: relT}
@@ -351,9 +358,15 @@ func (e *Env) binary(x *EBinary) CV {
 	case "||":
 		return CV{k: cvBool, t: or(e.eval(x.L).asBool(), e.eval(x.R).asBool())}
 	case "==>":
-		return CV{k: cvBool, t: imp(e.eval(x.L).asBool(), e.eval(x.R).asBool())}
+		e.neg = !e.neg
+		l := e.eval(x.L).asBool()
+		e.neg = !e.neg
+		return CV{k: cvBool, t: imp(l, e.eval(x.R).asBool())}
 	case "<==>":
-		return CV{k: cvBool, t: eq(e.eval(x.L).asBool(), e.eval(x.R).asBool())}
+		e.mixed++
+		l, r := e.eval(x.L).asBool(), e.eval(x.R).asBool()
+		e.mixed--
+		return CV{k: cvBool, t: eq(l, r)}
 	case "==":
 		return CV{k: cvBool, t: e.equal(e.eval(x.L), e.eval(x.R))}
 	case "!=":
@@ -1347,6 +1360,16 @@ func (fx *FnCtx) emitSpecFn(sf *SpecFn) {
 	kw := "define-fun"
 	if sf.Recursive {
 		kw = "define-fun-rec"
+	}
+	if sf.Hidden && !fx.reveal[sf.Name] {
+		// only the function symbol: facts about it come from lemmas
+		var sorts []string
+		for _, p := range sf.Params {
+			sorts = append(sorts, e.specTypeOf(p.Type).sorts...)
+		}
+		fx.decls.Raw(fmt.Sprintf("(declare-fun %s (%s) %s)", name, strings.Join(sorts, " "), rt.sorts[0]))
+		fx.specFnState[sf.Name] = 2
+		return
 	}
 	if sf.Opaque && !sf.Recursive && len(params) > 0 {
 		// quantified definitions stay behind a function symbol (congruence
